@@ -615,6 +615,28 @@ func (fx *FnExec) applyContract(con *Contract, key string, recv *Val, args []Val
 	oldAlloc := fx.heapVar(&fx.cur, "$alloc", "Int")
 	if con.ModAll || (len(con.Mod) == 0 && con.Flags["pure"] == "" && !hasModClause(con)) {
 		fx.havocAll(&fx.cur)
+		// private ghosts named next to `*` change as well
+		for _, m := range con.Mod {
+			ts, all, err := fx.resolveMod(env0, m)
+			if err != nil || all {
+				continue
+			}
+			for _, t := range ts {
+				for _, n := range t.names {
+					if !strings.HasPrefix(n, "ghost.") && !fx.isImmutable(n) {
+						continue
+					}
+					if t.idx == "" {
+						fx.havocVar(&fx.cur, n)
+						continue
+					}
+					srt := fx.e.heapSort[n]
+					es := strings.TrimSuffix(strings.TrimPrefix(srt, "(Array Int "), ")")
+					hv := fx.heapVar(&fx.cur, n, srt)
+					fx.heapSet(&fx.cur, n, srt, sSto(hv, t.idx, fx.c.fresh("mod", es)))
+				}
+			}
+		}
 	} else {
 		var targets []modTarget
 		for _, m := range con.Mod {
@@ -623,9 +645,9 @@ func (fx *FnExec) applyContract(con *Contract, key string, recv *Val, args []Val
 				return Val{}, fmt.Errorf("%s:%d: %v", con.File, con.Line, err)
 			}
 			if all {
+				// `*` does not include private ghosts: those are changed only when named as well
 				fx.havocAll(&fx.cur)
-				targets = nil
-				break
+				continue
 			}
 			targets = append(targets, ts...)
 		}
@@ -647,6 +669,15 @@ func (fx *FnExec) applyContract(con *Contract, key string, recv *Val, args []Val
 		}
 		fx.havocVar(&fx.cur, "$alloc")
 		fx.assume(sLe(oldAlloc, fx.heapVar(&fx.cur, "$alloc", "Int")))
+	}
+	if con.Flags["pure"] == "" {
+		// volatile ghosts: any call that is not pure may change them
+		for _, g := range fx.e.cs.Ghosts {
+			if g.Volatile {
+				fx.e.heapSort["ghost."+g.Name] = g.Sort
+				fx.havocVar(&fx.cur, "ghost."+g.Name)
+			}
+		}
 	}
 	result := fx.freshVal(resultType, "r."+shortName(key))
 	fx.assume(fx.wellTyped(result, &fx.cur))
@@ -1008,7 +1039,7 @@ func (fx *FnExec) frameContract() *Contract {
 // frame: every heap variable that differs from the entry state must be covered by the modifies clause
 func (fx *FnExec) frame(con *Contract, x *ssa.Return) error {
 	if con.ModAll {
-		return nil
+		return fx.framePrivate(con, x)
 	}
 	if len(con.Mod) == 0 && !hasModClause(con) {
 		return nil // no modifies clause: callers assume `modifies *`
@@ -1026,7 +1057,7 @@ func (fx *FnExec) frame(con *Contract, x *ssa.Return) error {
 		return err
 	}
 	if all {
-		return nil
+		return fx.framePrivate(con, x)
 	}
 	var names []string
 	for n := range fx.cur.vers {
@@ -1034,7 +1065,7 @@ func (fx *FnExec) frame(con *Contract, x *ssa.Return) error {
 	}
 	sort.Strings(names)
 	for _, n := range names {
-		if n == "$alloc" || n == "$fail" || strings.HasPrefix(n, "L.") {
+		if n == "$alloc" || n == "$fail" || strings.HasPrefix(n, "L.") || fx.isVolatileGhost(n) {
 			continue
 		}
 		goal := fx.frameFact(n, &fx.cur, byName)
@@ -1042,6 +1073,49 @@ func (fx *FnExec) frame(con *Contract, x *ssa.Return) error {
 			continue
 		}
 		fx.oblige("frame", n+lab, goal, "only the locations named in `modifies` change: "+n, x.Pos())
+	}
+	return nil
+}
+
+func (fx *FnExec) isVolatileGhost(n string) bool {
+	for _, g := range fx.e.cs.Ghosts {
+		if g.Volatile && "ghost."+g.Name == n {
+			return true
+		}
+	}
+	return false
+}
+
+// framePrivate: `modifies *` leaves private ghosts alone unless they are named as well
+func (fx *FnExec) framePrivate(con *Contract, x *ssa.Return) error {
+	lab := ""
+	if fx.countReturns() > 1 {
+		lab = fmt.Sprintf("@ret%d", fx.retOrdinal(x))
+	}
+	byName2 := map[string][]string{}
+	env := fx.specEnv(&fx.entry, nil, nil)
+	for _, m := range con.Mod {
+		if ts, a, err := fx.resolveMod(env, m); err == nil && !a {
+			for _, t := range ts {
+				for _, n := range t.names {
+					byName2[n] = append(byName2[n], t.idx)
+				}
+			}
+		}
+	}
+	for _, g := range fx.e.cs.Ghosts {
+		if !g.Private {
+			continue
+		}
+		n := "ghost." + g.Name
+		if _, touched := fx.cur.vers[n]; !touched {
+			continue
+		}
+		goal := fx.frameFact(n, &fx.cur, byName2)
+		if goal == "" || goal == tTrue {
+			continue
+		}
+		fx.oblige("frame", n+lab, goal, "a private ghost changes only when the contract names it in `modifies`: "+n, x.Pos())
 	}
 	return nil
 }
